@@ -259,11 +259,15 @@ def build_harness(ctx, plugin, profile):
                         s = open(p).read().replace('"/repo/', '"%s/' % ctx.repo)
                         open(p, "w").write(s)
         env["CARGO_TARGET_DIR"] = os.path.join(ctx.repo, "target", "verif-harness")
-    cmd = ["cargo", "build", "--offline", "-q", "-p", plugin.CRATE]
+    # every executor crate is a stand-alone package (no enclosing cargo workspace: a half-written
+    # neighbour crate must not break this build); they share one target directory
+    env.setdefault("CARGO_TARGET_DIR", os.path.join(HARNESS, "target"))
+    cmd = ["cargo", "build", "--offline", "-q", "--manifest-path",
+           os.path.join(hdir, "crates", plugin.CRATE, "Cargo.toml")]
     if profile == "release":
         cmd.append("--release")
     rc, out = run(cmd, cwd=hdir, timeout=3600, env=env)
-    tdir = env.get("CARGO_TARGET_DIR", os.path.join(hdir, "target"))
+    tdir = env["CARGO_TARGET_DIR"]
     binp = os.path.join(tdir, "release" if profile == "release" else "debug", plugin.CRATE)
     return rc == 0 and os.path.exists(binp), out, binp
 
